@@ -6,8 +6,10 @@ import asyncio
 import contextlib
 import hashlib
 import io
+import json
 import logging
 import os
+import re
 import signal
 import sys
 import warnings
@@ -353,6 +355,31 @@ flow main
   bot say "again: {$v}"
 ''' % SECRET
 
+# 2.x: value generation is reached three times in one conversation (the `...` operator; the action called directly; the
+# library flow `bot say something like`); the first value is also kept in a global variable and, together with the second, in a list
+# (shared references in the serialised state)
+V2_VALUE2_CO = '''
+import core
+import llm
+
+flow main
+  global $secret
+  $secret = "%s"
+  global $kept
+  match UtteranceUserActionFinished()
+  $v = ..."Extract the topic the user talks about"
+  $kept = $v
+  await UtteranceBotAction(script="got: {$v}")
+  match UtteranceUserActionFinished()
+  $w = await GenerateValueAction(var_name="w", instructions="Extract the topic the user talks about now")
+  $both = [$v, $w, $kept]
+  await UtteranceBotAction(script="second: {$w}")
+  match UtteranceUserActionFinished()
+  bot say something like "Goodbye"
+  match UtteranceUserActionFinished()
+  await UtteranceBotAction(script="fourth turn")
+''' % SECRET
+
 V2_YAML = 'colang_version: "2.x"\n' + MODELS
 
 
@@ -385,13 +412,13 @@ def v1_config(mode, model="gpt-3.5-turbo-instruct"):
 def v2_config(mode, model="gpt-3.5-turbo-instruct"):
     from nemoguardrails import RailsConfig
 
-    co = {"v2_intent": V2_INTENT_CO, "v2_flowgen": V2_INTENT_CO, "v2_value": V2_VALUE_CO, "v2_utter": V2_UTTER_CO, "v2_quote": V2_QUOTE_CO}[mode]
+    co = {"v2_intent": V2_INTENT_CO, "v2_flowgen": V2_INTENT_CO, "v2_value": V2_VALUE_CO, "v2_utter": V2_UTTER_CO, "v2_quote": V2_QUOTE_CO, "v2_value2": V2_VALUE2_CO}[mode]
     with contextlib.redirect_stdout(io.StringIO()):
         return RailsConfig.from_content(co, V2_YAML % model)
 
 
 V1_MODES = ["dialog", "single_call", "multi_step", "general", "passthrough", "dialog_q", "single_call_q", "dialog_c", "single_call_c", "multi_step_c"]
-V2_MODES = ["v2_intent", "v2_flowgen", "v2_value", "v2_utter", "v2_quote"]
+V2_MODES = ["v2_intent", "v2_flowgen", "v2_value", "v2_utter", "v2_quote", "v2_value2"]
 
 
 async def llm_lookup(llm):
@@ -497,7 +524,27 @@ def _call(app, mode, api, msg, hist, state):
     raise ValueError(api)
 
 
-def run_conversation(mode, turns, responses, fallback, context=None, per_turn_cpu=8.0, model="gpt-3.5-turbo-instruct", api=None):
+def v2_state_problem(state, full):
+    """None, or what is wrong with the state object a 2.x turn returned: it must be the JSON serialisation of the runtime state
+    (`{"state": <json text>, "version": "2.x"}`) and - `full` - restorable (the next turn, possibly of another process, starts from it;
+    for every turn but the last one the next `generate` call of the conversation does exactly that)"""
+    if not (isinstance(state, dict) and state.get("version") == "2.x" and isinstance(state.get("state"), str)):
+        return f"not a serialised 2.x state: {repr(state)[:120]}"
+    if not re.match(r'\{\s*"__type":\s*"State"', state["state"]):
+        return f"not an encoded State: {state['state'][:120]!r}"
+    if full:
+        from nemoguardrails.colang.v2_x.runtime.serialization import json_to_state
+
+        try:
+            st = json_to_state(state["state"])
+        except Exception as e:  # noqa
+            return f"json_to_state refuses it: {type(e).__name__}: {str(e)[:80]}"
+        if type(st).__name__ != "State":
+            return f"json_to_state restores a {type(st).__name__}"
+    return None
+
+
+def run_conversation(mode, turns, responses, fallback, context=None, per_turn_cpu=8.0, model="gpt-3.5-turbo-instruct", api=None, full_state_check=False, fresh=False):
     """Drive the real `LLMRails.generate` turn by turn through the public interface `api` (plain messages, generation options with
     every log switched on, `prompt=`, an explicit `state`, a streaming handler, an instance created with `verbose=True`).
     Returns per-turn observations:
@@ -507,7 +554,7 @@ def run_conversation(mode, turns, responses, fallback, context=None, per_turn_cp
     verbose = api == "verbose"
     try:
         with cpu_watchdog(per_turn_cpu), contextlib.redirect_stdout(io.StringIO()):
-            app, llm = make_app(mode, responses, fallback, model, verbose=verbose)
+            app, llm = make_app(mode, responses, fallback, model, verbose=verbose, fresh=fresh)
     except Hang:
         out["setup"] = "hang"
         return out
@@ -527,6 +574,10 @@ def run_conversation(mode, turns, responses, fallback, context=None, per_turn_cp
                     if verbose:
                         logging.disable(logging.CRITICAL)
                 rec["reply"] = r
+                if mode.startswith("v2"):
+                    sp = v2_state_problem(state, full_state_check and msg is turns[-1])
+                    if sp:
+                        rec["state_problem"] = sp
                 if not mode.startswith("v2") and isinstance(r, dict) and api not in ("prompt", "state"):
                     hist.append(r)
         except Hang as e:
